@@ -1,36 +1,208 @@
-(* Model of the header path of property C18: fs/remote/resolver.go
-     newHTTPFetcher (per registry host: redirect, getSize), httpFetcher {url, header, blobURL, orgHeader,
-     singleRange}: fetch (incl. 403 -> refreshURL -> retry and 400 -> single range -> retry), check, refreshURL.
+(* Model of the header / credential transport path of property C18:
+     service/resolver/registry.go  RegistryHostsFromConfig: the host list and its per-host header tables
+     fs/remote/resolver.go         newHTTPFetcher (per registry host: redirect, getSize), transport.RoundTrip
+                                   (Authorize, send, on 401 AddResponses + re-authorize + resend), httpFetcher
+                                   {url, header, blobURL, orgHeader, singleRange}: fetch (incl. 403 -> refreshURL
+                                   -> retry and 400 -> single range -> retry), check, refreshURL
+     containerd docker.Authorizer  (third-party; modelled by contract: per-host handlers, Basic / Bearer,
+                                   token fetch POST -> GET fallback, token and error caching)
    Executable definitions only; proofs are in Proofs/Headers.v.
 
    Locations: [Blob i] is the blob URL on the i-th registry host returned by the RegistryHosts function
-   (mirrors first, the origin last); [Ext n] is any other URL (a redirect target).  A header set is identified
-   with the index of the host it was configured for ([None] = no headers).  The registry's behaviour is the
-   adversary: every request is answered by an arbitrary [resp] given with the step.
+   (mirrors first, the origin last); [Ext h n] is another URL (number n) on host h (a redirect target; h may
+   be a registry host); [Realm n] is the token endpoint of auth server n.  A header set is identified with the
+   index of the host it was configured for ([None] = no headers).  The servers' behaviour is the adversary:
+   every request is answered by an arbitrary [resp] given with the step.
 
    Concurrency: every API call (fetch / check) is a thread; [micro] advances one thread by one atomic
-   sub-step (one critical section of urlMu / singleRangeMu, or one request+response).  A schedule is a list
-   of ops.  [fixed = true] is the code with patches/C18-fix-1.diff (url and header are read in ONE critical
-   section); [fixed = false] is the code before the fix (header read later, outside the lock). *)
+   sub-step (one critical section of urlMu / singleRangeMu / the authorizer's locks, or one request+response;
+   a token fetch is atomic because the authorizer makes other users of the same token wait for it).
+   [fixed = true] is the code with patches/C18-fix-1.diff (url and header are read in ONE critical section);
+   [fixed = false] is the code before the fix (header read later, outside the lock). *)
 From Coq Require Import List Arith Bool.
+From SV Require Model.Creds.
 Import ListNotations.
 
-Inductive loc := Blob (i : nat) | Ext (n : nat).
-Inductive meth := GET | HEAD.
-Record req := mkReq { r_meth : meth; r_loc : loc; r_hdr : option nat }.
-(* status code, Location header (None = absent/empty), well-formed (Content-Length / Content-Range / media type parse) *)
-Inductive resp := Resp (code : nat) (location : option loc) (wf : bool) | RErr.
+Inductive loc := Blob (i : nat) | Ext (host n : nat) | Realm (n : nat).
+Definition host_of (l : loc) : nat :=
+  match l with Blob i => i | Ext h _ => h | Realm n => 1000 + n end.
 
-Record hostcfg := mkHost { h_valid : bool;   (* host name non-empty and without '/' *)
-                           h_hdr : bool }.   (* headers configured for this host *)
+Inductive meth := GET | HEAD | POST.
+
+(* what a request carries by way of authorization *)
+Inductive az :=
+| AzNone
+| AzBasic (j : nat)            (* Authorization: Basic <the credential the keychain gave for host j> *)
+| AzBearer (j t : nat)         (* Authorization: Bearer <t-th token of this authorizer, fetched for host j> *)
+| AzTok (j : nat) (cred : bool). (* token request on behalf of host j, with / without that host's credential *)
+
+Record req := mkReq { r_meth : meth; r_loc : loc; r_hdr : option nat; r_az : az }.
+
+(* WWW-Authenticate of a 401 *)
+Inductive chal := ChNone | ChBasic | ChBearer (realm : option nat) (err : bool).
+
+(* status code, Location header (None = absent/empty), well-formed (Content-Length / Content-Range / media type
+   parse; for a token request: JSON with a token), challenge *)
+Inductive resp := Resp (code : nat) (location : option loc) (wf : bool) (ch : chal) | RErr.
+
+Definition default_resp := Resp 200 None true ChNone.
+Definition next (sc : list resp) : resp * list resp :=
+  match sc with [] => (default_resp, []) | r :: t => (r, t) end.
+
+(* ================= RegistryHostsFromConfig ================= *)
+Inductive hval := VStr | VList (all_strings : bool) | VBad.   (* type of one configured header value *)
+Record mirror := mkMirror { m_valid : bool;                  (* host name non-empty and without '/' *)
+                            m_hdr : option (list hval) }.    (* Header table: nil or the values of its keys *)
+
+Record hostcfg := mkHost { h_valid : bool; h_hdr : bool (* a non-empty header set *) }.
+
+Definition hval_ok (v : hval) : bool := match v with VStr => true | VList b => b | VBad => false end.
+Definition table_ok (t : option (list hval)) : bool := match t with None => true | Some vs => forallb hval_ok vs end.
+Definition table_nonempty (t : option (list hval)) : bool := match t with Some (_ :: _) => true | _ => false end.
+
+(* one docker.RegistryHost per mirror, in order, then the origin host without headers; any value of a wrong type
+   makes the whole function fail *)
+Definition hosts_of_config (ms : list mirror) : option (list hostcfg) :=
+  if forallb (fun m => table_ok (m_hdr m)) ms
+  then Some (map (fun m => mkHost (m_valid m) (table_nonempty (m_hdr m))) ms ++ [mkHost true false])
+  else None.
 
 Definition org_of (i : nat) (h : hostcfg) : option nat := if h_hdr h then Some i else None.
+
+(* ================= credentials as the authorizer sees them ================= *)
+Inductive ckind := KErr | KNone | KUser | KSecret | KBoth.
+Definition has_secret (k : ckind) : bool := match k with KSecret | KBoth => true | _ => false end.
+Definition has_user (k : ckind) : bool := match k with KUser | KBoth => true | _ => false end.
+
+Definition kind_of (c : Creds.cres) : ckind :=
+  match c with
+  | Creds.CErr => KErr
+  | Creds.COk u s =>
+      match Creds.is_nil u, Creds.is_nil s with
+      | true, true => KNone
+      | false, true => KUser
+      | true, false => KSecret
+      | false, false => KBoth
+      end
+  end.
+
+(* ================= docker.Authorizer (contract) ================= *)
+Inductive tokst := TNone | TOk (t : nat) | TFail.
+Inductive handler := HBasic | HBearer (realm : nat) (k : ckind) (tok : tokst).
+Record authz := mkAz { handlers : list (nat * handler); ntok : nat }.
+Definition new_authz := mkAz [] 0.
+
+Fixpoint h_find (l : list (nat * handler)) (j : nat) : option handler :=
+  match l with
+  | [] => None
+  | (j', h) :: t => if Nat.eqb j' j then Some h else h_find t j
+  end.
+Fixpoint h_del (l : list (nat * handler)) (j : nat) : list (nat * handler) :=
+  match l with
+  | [] => []
+  | (j', h) :: t => if Nat.eqb j' j then h_del t j else (j', h) :: h_del t j
+  end.
+Definition h_set l j h := (j, h) :: h_del l j.
+
+Definition tok_ok (r : resp) : bool :=
+  match r with Resp c _ wf _ => (200 <=? c) && (c <? 400) && wf | RErr => false end.
+(* FetchTokenWithOAuth failed with a status for which the GET endpoint is tried *)
+Definition tok_fallback (k : ckind) (r : resp) : bool :=
+  match r with
+  | Resp c _ _ _ => ((c =? 405) && has_user k) || (c =? 404) || (c =? 401) || (c =? 400)
+  | RErr => false
+  end.
+
+(* end of a token fetch on behalf of host j: the token (or the error) is cached in the handler *)
+Definition tok_fin (a : authz) (j n : nat) (k : ckind) (ok : bool) (qs : list req) : authz * list req * option az :=
+  if ok then (mkAz (h_set (handlers a) j (HBearer n k (TOk (ntok a)))) (S (ntok a)), qs, Some (AzBearer j (ntok a)))
+  else (mkAz (h_set (handlers a) j (HBearer n k TFail)) (ntok a), qs, None).
+
+(* Authorizer.Authorize for a request to host j: token requests sent, the authorization added (None = error) *)
+Definition authorize (a : authz) (j : nat) (sc : list resp) : authz * list req * option az :=
+  match h_find (handlers a) j with
+  | None => (a, [], Some AzNone)
+  | Some HBasic => (a, [], Some (AzBasic j))
+  | Some (HBearer n k tok) =>
+      match tok with
+      | TOk t => (a, [], Some (AzBearer j t))
+      | TFail => (a, [], None)                        (* the error is cached with the token slot *)
+      | TNone =>
+          if has_secret k then
+            let q1 := mkReq POST (Realm n) None (AzTok j true) in
+            if tok_ok (fst (next sc)) then tok_fin a j n k true [q1]
+            else if tok_fallback k (fst (next sc)) then
+              tok_fin a j n k (tok_ok (fst (next (snd (next sc))))) [q1; mkReq GET (Realm n) None (AzTok j true)]
+            else tok_fin a j n k false [q1]
+          else
+            tok_fin a j n k (tok_ok (fst (next sc))) [mkReq GET (Realm n) None (AzTok j false)]
+      end
+  end.
+
+Inductive addres := AOk | ANotImpl | AErr.
+
+(* Authorizer.AddResponses for a 401 from host j; [creds] is the credential function (multiCredsFuncs) *)
+Definition add_responses (creds : nat -> ckind) (a : authz) (j : nat) (ch : chal) : authz * addres :=
+  match ch with
+  | ChNone => (a, ANotImpl)
+  | ChBasic =>
+      match creds j with
+      | KBoth => (mkAz (h_set (handlers a) j HBasic) (ntok a), AOk)
+      | _ => (a, AErr)
+      end
+  | ChBearer realm err =>
+      let a1 := if err then mkAz (h_del (handlers a) j) (ntok a) else a in
+      match h_find (handlers a1) j with
+      | Some _ => (a1, AOk)
+      | None =>
+          match creds j with
+          | KErr => (a1, AErr)
+          | k => match realm with
+                 | Some n => (mkAz (h_set (handlers a1) j (HBearer n k TNone)) (ntok a1), AOk)
+                 | None => (a1, AErr)
+                 end
+          end
+      end
+  end.
+
+(* ================= transport.RoundTrip, sequentially (used during the initial resolution) ================= *)
+Definition chal_of (r : resp) : option chal :=
+  match r with Resp c _ _ ch => if c =? 401 then Some ch else None | RErr => None end.
+
+(* returns the authorizer, the requests sent, the response handed to the caller (RErr = error), the rest of the script *)
+Definition xfer (creds : nat -> ckind) (a : authz) (m : meth) (u : loc) (h : option nat) (sc : list resp)
+  : authz * list req * resp * list resp :=
+  let '(a1, tq1, oaz) := authorize a (host_of u) sc in
+  let sc1 := skipn (length tq1) sc in
+  match oaz with
+  | None => (a1, tq1, RErr, sc1)
+  | Some z1 =>
+      let '(r, sc2) := next sc1 in
+      let q := mkReq m u h z1 in
+      match chal_of r with
+      | None => (a1, tq1 ++ [q], r, sc2)
+      | Some ch =>
+          match add_responses creds a1 (host_of u) ch with
+          | (a2, ANotImpl) => (a2, tq1 ++ [q], r, sc2)
+          | (a2, AErr) => (a2, tq1 ++ [q], RErr, sc2)
+          | (a2, AOk) =>
+              let '(a3, tq2, oaz2) := authorize a2 (host_of u) sc2 in
+              let sc3 := skipn (length tq2) sc2 in
+              match oaz2 with
+              | None => (a3, tq1 ++ [q] ++ tq2, RErr, sc3)
+              | Some z2 =>
+                  let '(r2, sc4) := next sc3 in
+                  (a3, tq1 ++ [q] ++ tq2 ++ [mkReq m u h z2], r2, sc4)
+              end
+          end
+      end
+  end.
 
 (* redirect(): where to go and which headers to use there *)
 Definition redirect_res (i : nat) (org : option nat) (r : resp) : option (loc * option nat) :=
   match r with
   | RErr => None
-  | Resp code l _ =>
+  | Resp code l _ _ =>
       if code / 100 =? 2 then Some (Blob i, org)
       else if code / 100 =? 3 then
         match l with
@@ -40,57 +212,58 @@ Definition redirect_res (i : nat) (org : option nat) (r : resp) : option (loc * 
       else None
   end.
 
-Definition default_resp := Resp 200 None true.
-Definition next (sc : list resp) : resp * list resp :=
-  match sc with [] => (default_resp, []) | r :: t => (r, t) end.
-
-(* getSize(): requests sent and success *)
-Definition get_size (u : loc) (hd : option nat) (sc : list resp) : list req * bool * list resp :=
-  let '(r1, sc1) := next sc in
-  let q1 := mkReq HEAD u hd in
+(* getSize(): authorizer, requests sent, success, rest of the script *)
+Definition get_size (creds : nat -> ckind) (a : authz) (u : loc) (hd : option nat) (sc : list resp)
+  : authz * list req * bool * list resp :=
+  let '(a1, qs1, r1, sc1) := xfer creds a HEAD u hd sc in
   match r1 with
-  | RErr => ([q1], false, sc1)
-  | Resp c1 _ wf1 =>
-      if c1 =? 200 then ([q1], wf1, sc1)
+  | RErr => (a1, qs1, false, sc1)
+  | Resp c1 _ wf1 _ =>
+      if c1 =? 200 then (a1, qs1, wf1, sc1)
       else
-        let '(r2, sc2) := next sc1 in
-        let q2 := mkReq GET u hd in
+        let '(a2, qs2, r2, sc2) := xfer creds a1 GET u hd sc1 in
         match r2 with
-        | RErr => ([q1; q2], false, sc2)
-        | Resp c2 _ wf2 => ([q1; q2], ((c2 =? 200) || (c2 =? 206)) && wf2, sc2)
+        | RErr => (a2, qs1 ++ qs2, false, sc2)
+        | Resp c2 _ wf2 _ => (a2, qs1 ++ qs2, ((c2 =? 200) || (c2 =? 206)) && wf2, sc2)
         end
   end.
 
-(* newHTTPFetcher: try the hosts in order; result = (host index, url, header) of the first that works *)
-Fixpoint resolve_from (i : nat) (hs : list hostcfg) (sc : list resp)
-  : list req * option (nat * loc * option nat) :=
+Definition target := (nat * loc * option nat * authz)%type.   (* host index, url, header, its authorizer *)
+
+(* newHTTPFetcher: try the hosts in order (each with its own fresh authorizer); the first that works wins *)
+Fixpoint resolve_from (creds : nat -> ckind) (i : nat) (hs : list hostcfg) (sc : list resp)
+  : list req * option target :=
   match hs with
   | [] => ([], None)
   | h :: t =>
-      if negb (h_valid h) then resolve_from (S i) t sc
+      if negb (h_valid h) then resolve_from creds (S i) t sc
       else
         let org := org_of i h in
-        let '(r0, sc0) := next sc in
-        let q0 := mkReq GET (Blob i) org in
+        let '(a0, qs0, r0, sc0) := xfer creds new_authz GET (Blob i) org sc in
         match redirect_res i org r0 with
-        | None => let '(qs, res) := resolve_from (S i) t sc0 in (q0 :: qs, res)
+        | None => let '(qs, res) := resolve_from creds (S i) t sc0 in (qs0 ++ qs, res)
         | Some (u, hd) =>
-            let '(qs1, ok, sc1) := get_size u hd sc0 in
-            if ok then (q0 :: qs1, Some (i, u, hd))
-            else let '(qs, res) := resolve_from (S i) t sc1 in (q0 :: qs1 ++ qs, res)
+            let '(a1, qs1, ok, sc1) := get_size creds a0 u hd sc0 in
+            if ok then (qs0 ++ qs1, Some (i, u, hd, a1))
+            else let '(qs, res) := resolve_from creds (S i) t sc1 in (qs0 ++ qs1 ++ qs, res)
         end
   end.
-Definition resolve := resolve_from 0.
+Definition resolve creds := resolve_from creds 0.
 
-(* ---- the fetcher ---- *)
+(* ================= the fetcher ================= *)
 Inductive kind := KFetch | KCheck.
+(* who waits for the answer of a transport round trip *)
+Inductive cont := CFetch (retry sr : bool) | CCheck | CRefresh (k : kind).
+Inductive tphase :=
+| TAuth (second : bool)                 (* about to call Authorize (for the first send / for the resend after a 401) *)
+| TSend (second : bool) (z : az)        (* request built and authorized, not yet sent *)
+| TAdd (r : resp).                      (* got 401 on the first send, about to call AddResponses *)
 Inductive pc :=
 | PStart (k : kind) (retry : bool)                      (* fetch: about to read singleRange *)
 | PSnap (k : kind) (retry sr : bool)                    (* about to lock urlMu and read the target *)
 | PHook (k : kind) (retry sr : bool) (u : loc) (h : option (option nat))
                                                         (* target read; h = None: header not read yet (unfixed) *)
-| PSend (k : kind) (retry sr : bool) (u : loc) (h : option nat)   (* request built, not yet sent *)
-| PRefSend (k : kind)                                   (* refreshURL: about to ask the registry again *)
+| PT (c : cont) (u : loc) (h : option nat) (ph : tphase) (* inside transport.RoundTrip for a request to u with headers h *)
 | PRefWrite (k : kind) (u : loc) (h : option nat)       (* refreshURL: answer known, about to lock and write *)
 | PDone (ok : bool).
 
@@ -100,10 +273,12 @@ Record fs := mkFs {
   url : loc;
   header : option nat;
   single : bool;
+  auth : authz;               (* the authorizer of the chosen registry host *)
   threads : list pc
 }.
 
-Definition mk_fetcher (c : nat) (o : option nat) (u : loc) (h : option nat) : fs := mkFs c o u h false [].
+Definition mk_fetcher (c : nat) (o : option nat) (u : loc) (h : option nat) (a : authz) : fs :=
+  mkFs c o u h false a [].
 
 Fixpoint upd {A} (l : list A) (n : nat) (x : A) : list A :=
   match l, n with
@@ -113,28 +288,48 @@ Fixpoint upd {A} (l : list A) (n : nat) (x : A) : list A :=
   end.
 
 Definition set_pc (s : fs) (t : nat) (p : pc) : fs :=
-  mkFs (blob s) (org s) (url s) (header s) (single s) (upd (threads s) t p).
+  mkFs (blob s) (org s) (url s) (header s) (single s) (auth s) (upd (threads s) t p).
+Definition set_auth (s : fs) (a : authz) : fs :=
+  mkFs (blob s) (org s) (url s) (header s) (single s) a (threads s).
+Definition set_single (s : fs) : fs :=
+  mkFs (blob s) (org s) (url s) (header s) true (auth s) (threads s).
 
-(* what a fetch / check does with the answer to its request *)
-Definition after_send (k : kind) (retry sr : bool) (r : resp) : pc * bool (* set single *) :=
-  match r with
-  | RErr => (PDone false, false)
-  | Resp c _ wf =>
-      match k with
-      | KFetch =>
+Definition refresh_pc (s : fs) (k : kind) : pc := PT (CRefresh k) (Blob (blob s)) (org s) (TAuth false).
+
+(* what the caller of the round trip does with its result: next pc, and whether singleRange is set *)
+Definition finish (s : fs) (c : cont) (r : resp) : pc * bool :=
+  match c with
+  | CFetch retry sr =>
+      match r with
+      | RErr => (PDone false, false)
+      | Resp c _ wf _ =>
           if (c =? 200) || (c =? 206) then (PDone wf, false)
-          else if retry && (c =? 403) then (PRefSend KFetch, false)
+          else if retry && (c =? 403) then (refresh_pc s KFetch, false)
           else if retry && (c =? 400) && negb sr then (PStart KFetch false, true)
           else (PDone false, false)
-      | KCheck =>
+      end
+  | CCheck =>
+      match r with
+      | RErr => (PDone false, false)
+      | Resp c _ _ _ =>
           if (c =? 200) || (c =? 206) then (PDone true, false)
-          else if c =? 403 then (PRefSend KCheck, false)
+          else if c =? 403 then (refresh_pc s KCheck, false)
           else (PDone false, false)
+      end
+  | CRefresh k =>
+      match redirect_res (blob s) (org s) r with
+      | Some (u, h) => (PRefWrite k u h, false)
+      | None => (PDone false, false)
       end
   end.
 
-(* one atomic sub-step of thread t; r answers the request if this sub-step sends one *)
-Definition micro (fixed : bool) (s : fs) (t : nat) (r : resp) : fs * list req :=
+Definition finish_at (s : fs) (t : nat) (c : cont) (r : resp) : fs :=
+  let '(p, ss) := finish s c r in set_pc (if ss then set_single s else s) t p.
+
+(* one atomic sub-step of thread t; r answers the request if this sub-step sends one to a registry / redirect
+   location, toks answer the token requests if it calls Authorize *)
+Definition micro (fixed : bool) (creds : nat -> ckind) (s : fs) (t : nat) (r : resp) (toks : list resp)
+  : fs * list req :=
   match nth_error (threads s) t with
   | None => (s, [])
   | Some p =>
@@ -143,19 +338,35 @@ Definition micro (fixed : bool) (s : fs) (t : nat) (r : resp) : fs * list req :=
       | PSnap k retry sr =>
           (set_pc s t (PHook k retry sr (url s) (if fixed then Some (header s) else None)), [])
       | PHook k retry sr u h =>
-          (set_pc s t (PSend k retry sr u (match h with Some h => h | None => header s end)), [])
-      | PSend k retry sr u h =>
-          let '(p', ss) := after_send k retry sr r in
-          let s1 := if ss then mkFs (blob s) (org s) (url s) (header s) true (threads s) else s in
-          (set_pc s1 t p', [mkReq GET u h])
-      | PRefSend k =>
-          let q := mkReq GET (Blob (blob s)) (org s) in
-          match redirect_res (blob s) (org s) r with
-          | Some (u, h) => (set_pc s t (PRefWrite k u h), [q])
-          | None => (set_pc s t (PDone false), [q])
+          let c := match k with KFetch => CFetch retry sr | KCheck => CCheck end in
+          (set_pc s t (PT c u (match h with Some h => h | None => header s end) (TAuth false)), [])
+      | PT c u h (TAuth second) =>
+          let '(a1, tq, oaz) := authorize (auth s) (host_of u) toks in
+          let s1 := set_auth s a1 in
+          match oaz with
+          | Some z => (set_pc s1 t (PT c u h (TSend second z)), tq)
+          | None => (finish_at s1 t c RErr, tq)
+          end
+      | PT c u h (TSend second z) =>
+          let q := mkReq GET u h z in
+          match chal_of r with
+          | Some _ => if second then (finish_at s t c r, [q]) else (set_pc s t (PT c u h (TAdd r)), [q])
+          | None => (finish_at s t c r, [q])
+          end
+      | PT c u h (TAdd r0) =>
+          match chal_of r0 with
+          | None => (finish_at s t c r0, [])
+          | Some ch =>
+              let '(a1, res) := add_responses creds (auth s) (host_of u) ch in
+              let s1 := set_auth s a1 in
+              match res with
+              | AOk => (set_pc s1 t (PT c u h (TAuth true)), [])
+              | ANotImpl => (finish_at s1 t c r0, [])
+              | AErr => (finish_at s1 t c RErr, [])
+              end
           end
       | PRefWrite k u h =>
-          let s1 := mkFs (blob s) (org s) u h (single s) (threads s) in
+          let s1 := mkFs (blob s) (org s) u h (single s) (auth s) (threads s) in
           (set_pc s1 t (match k with KFetch => PStart KFetch false | KCheck => PDone true end), [])
       | PDone _ => (s, [])
       end
@@ -163,70 +374,87 @@ Definition micro (fixed : bool) (s : fs) (t : nat) (r : resp) : fs * list req :=
 
 (* places where the harness can hold a thread: the scheduling hook, a request about to be sent, the end *)
 Definition parked (p : pc) : bool :=
-  match p with PHook _ _ _ _ _ | PSend _ _ _ _ _ | PRefSend _ | PDone _ => true | _ => false end.
+  match p with PHook _ _ _ _ _ | PT _ _ _ (TSend _ _) | PDone _ => true | _ => false end.
 
 Definition is_parked (s : fs) (t : nat) : bool :=
   match nth_error (threads s) t with Some p => parked p | None => true end.
 
-Fixpoint settle (fixed : bool) (fuel : nat) (s : fs) (t : nat) : fs :=
+Fixpoint settle (fixed : bool) creds (fuel : nat) (s : fs) (t : nat) (toks : list resp) : fs * list req :=
   match fuel with
-  | O => s
-  | S f => if is_parked s t then s else settle fixed f (fst (micro fixed s t RErr)) t
+  | O => (s, [])
+  | S f =>
+      if is_parked s t then (s, [])
+      else let '(s1, q1) := micro fixed creds s t RErr toks in
+           let '(s2, q2) := settle fixed creds f s1 t toks in (s2, q1 ++ q2)
   end.
 
 (* let thread t run from where it is held to the next place it can be held *)
-Definition resume (fixed : bool) (s : fs) (t : nat) (r : resp) : fs * list req :=
-  let '(s1, q) := micro fixed s t r in (settle fixed 6 s1 t, q).
+Definition resume (fixed : bool) creds (s : fs) (t : nat) (r : resp) (toks : list resp) : fs * list req :=
+  let '(s1, q1) := micro fixed creds s t r toks in
+  let '(s2, q2) := settle fixed creds 8 s1 t toks in (s2, q1 ++ q2).
 
 Inductive op :=
 | Spawn (k : kind) (retry : bool)
-| Micro (t : nat) (r : resp)
-| Resume (t : nat) (r : resp).
+| Micro (t : nat) (r : resp) (toks : list resp)
+| Resume (t : nat) (r : resp) (toks : list resp).
 
-Definition step (fixed : bool) (s : fs) (o : op) : fs * list req :=
+Definition step (fixed : bool) creds (s : fs) (o : op) : fs * list req :=
   match o with
   | Spawn k retry =>
-      (mkFs (blob s) (org s) (url s) (header s) (single s) (threads s ++ [PStart k retry]), [])
-  | Micro t r => micro fixed s t r
-  | Resume t r => resume fixed s t r
+      (mkFs (blob s) (org s) (url s) (header s) (single s) (auth s) (threads s ++ [PStart k retry]), [])
+  | Micro t r toks => micro fixed creds s t r toks
+  | Resume t r toks => resume fixed creds s t r toks
   end.
 
 Definition done_of (s : fs) (o : op) : option bool :=
   match o with
   | Spawn _ _ => None
-  | Micro t _ | Resume t _ =>
+  | Micro t _ _ | Resume t _ _ =>
       match nth_error (threads s) t with Some (PDone b) => Some b | _ => None end
   end.
 
 Definition out := (list req * option bool)%type.
 
-Fixpoint run (fixed : bool) (s : fs) (os : list op) : fs * list out :=
+Fixpoint run (fixed : bool) creds (s : fs) (os : list op) : fs * list out :=
   match os with
   | [] => (s, [])
   | o :: t =>
-      let '(s1, q) := step fixed s o in
-      let '(s2, xs) := run fixed s1 t in (s2, (q, done_of s1 o) :: xs)
+      let '(s1, q) := step fixed creds s o in
+      let '(s2, xs) := run fixed creds s1 t in (s2, (q, done_of s1 o) :: xs)
   end.
 
-Definition exec (fixed : bool) (s : fs) (os : list op) : fs :=
-  fold_left (fun s o => fst (step fixed s o)) os s.
+Definition exec (fixed : bool) creds (s : fs) (os : list op) : fs :=
+  fold_left (fun s o => fst (step fixed creds s o)) os s.
 
 (* all requests emitted along a schedule *)
-Fixpoint emitted (fixed : bool) (s : fs) (os : list op) : list req :=
+Fixpoint emitted (fixed : bool) creds (s : fs) (os : list op) : list req :=
   match os with
   | [] => []
-  | o :: t => let '(s1, q) := step fixed s o in q ++ emitted fixed s1 t
+  | o :: t => let '(s1, q) := step fixed creds s o in q ++ emitted fixed creds s1 t
   end.
 
-(* the property, per request: headers configured for host i travel only to the blob URL on host i *)
+(* ================= the property, per request ================= *)
+(* headers configured for host i travel only to the blob URL on host i *)
 Definition confined (hs : list hostcfg) (q : req) : Prop :=
   forall i, r_hdr q = Some i -> r_loc q = Blob i /\ exists h, nth_error hs i = Some h /\ h_hdr h = true.
 
-(* ---- correspondence ---- *)
+(* a credential obtained for host j travels only to host j (Basic) or, inside a token request made on behalf of
+   host j, to a token endpoint, and only if the credential function offered a secret for j; a bearer token
+   obtained on behalf of host j travels only to host j; token requests carry no configured headers *)
+Definition cred_ok (creds : nat -> ckind) (q : req) : Prop :=
+  match r_az q with
+  | AzNone => True
+  | AzBasic j => host_of (r_loc q) = j /\ creds j = KBoth
+  | AzBearer j _ => host_of (r_loc q) = j
+  | AzTok j c => (exists n, r_loc q = Realm n) /\ r_hdr q = None /\ (c = true -> has_secret (creds j) = true)
+  end.
+
+(* ================= correspondence ================= *)
 Definition loc_eqb (a b : loc) : bool :=
   match a, b with
   | Blob i, Blob j => Nat.eqb i j
-  | Ext i, Ext j => Nat.eqb i j
+  | Ext h i, Ext h' j => Nat.eqb h h' && Nat.eqb i j
+  | Realm i, Realm j => Nat.eqb i j
   | _, _ => false
   end.
 Definition onat_eqb (a b : option nat) : bool :=
@@ -236,9 +464,18 @@ Definition onat_eqb (a b : option nat) : bool :=
   | _, _ => false
   end.
 Definition meth_eqb (a b : meth) : bool :=
-  match a, b with GET, GET => true | HEAD, HEAD => true | _, _ => false end.
+  match a, b with GET, GET => true | HEAD, HEAD => true | POST, POST => true | _, _ => false end.
+Definition az_eqb (a b : az) : bool :=
+  match a, b with
+  | AzNone, AzNone => true
+  | AzBasic i, AzBasic j => Nat.eqb i j
+  | AzBearer i t, AzBearer j t' => Nat.eqb i j && Nat.eqb t t'
+  | AzTok i c, AzTok j c' => Nat.eqb i j && Bool.eqb c c'
+  | _, _ => false
+  end.
 Definition req_eqb (a b : req) : bool :=
-  meth_eqb (r_meth a) (r_meth b) && loc_eqb (r_loc a) (r_loc b) && onat_eqb (r_hdr a) (r_hdr b).
+  meth_eqb (r_meth a) (r_meth b) && loc_eqb (r_loc a) (r_loc b) && onat_eqb (r_hdr a) (r_hdr b)
+  && az_eqb (r_az a) (r_az b).
 Fixpoint reqs_eqb (a b : list req) : bool :=
   match a, b with
   | [], [] => true
@@ -258,36 +495,54 @@ Fixpoint outs_eqb (a b : list out) : bool :=
   | _, _ => false
   end.
 
-Definition target := (nat * loc * option nat)%type.   (* host index, url, header *)
-Definition target_eqb (a b : option target) : bool :=
+Definition otarget := option (nat * loc * option nat).
+Definition target_eqb (a : option target) (b : otarget) : bool :=
   match a, b with
   | None, None => true
-  | Some (i, u, h), Some (j, u', h') => Nat.eqb i j && loc_eqb u u' && onat_eqb h h'
+  | Some (i, u, h, _), Some (j, u', h') => Nat.eqb i j && loc_eqb u u' && onat_eqb h h'
   | _, _ => false
   end.
 Definition final := (loc * option nat * bool)%type.   (* url, header, singleRange at the end *)
 Definition final_eqb (a b : final) : bool :=
   let '(u, h, s) := a in let '(u', h', s') := b in loc_eqb u u' && onat_eqb h h' && Bool.eqb s s'.
 
-(* a case: host configuration, scripted answers during resolution, schedule; observed on the implementation:
-   requests of the resolution, its result, per-op requests + completion, final fetcher state *)
+(* the credential function of a case: the real keychain model after one pull of the image (reference 0) with
+   the case's auth config, asked for the host's name *)
+Definition case_creds (oa : option Creds.auth) (names : list (nat * Creds.str)) (j : nat) : ckind :=
+  match find (fun p => Nat.eqb (fst p) j) names with
+  | Some (_, nm) =>
+      kind_of (Creds.credentials (Creds.exec (Creds.init true) [Creds.Pull (Some 0) oa true]) nm 0)
+  | None => KNone
+  end.
+
+(* a case: mirror configuration, the pull's auth config and the host names, scripted answers during resolution,
+   schedule; observed on the implementation: requests of the resolution, its result, per-op requests +
+   completion, final fetcher state *)
 Record case := mkCase {
-  c_hosts : list hostcfg; c_script : list resp; c_ops : list op;
-  o_reqs : list req; o_target : option target; o_outs : list out; o_final : option final
+  c_mirrors : list mirror; c_auth : option Creds.auth; c_names : list (nat * Creds.str);
+  c_script : list resp; c_ops : list op;
+  o_reqs : list req; o_target : otarget; o_outs : list out; o_final : option final
 }.
 
 Definition case_ok (c : case) : bool :=
-  let '(qs, tg) := resolve (c_hosts c) (c_script c) in
-  reqs_eqb qs (o_reqs c) && target_eqb tg (o_target c) &&
-  match tg with
-  | None => match o_final c with None => true | Some _ => false end
-  | Some (i, u, h) =>
-      let org := match nth_error (c_hosts c) i with Some hc => org_of i hc | None => None end in
-      let '(s, outs) := run true (mk_fetcher i org u h) (c_ops c) in
-      outs_eqb outs (o_outs c) &&
-      match o_final c with
-      | Some f => final_eqb (url s, header s, single s) f
-      | None => false
+  match hosts_of_config (c_mirrors c) with
+  | None =>   (* the hosts function fails: no request at all *)
+      reqs_eqb [] (o_reqs c) && target_eqb None (o_target c)
+      && match o_final c with None => true | Some _ => false end
+  | Some hs =>
+      let creds := case_creds (c_auth c) (c_names c) in
+      let '(qs, tg) := resolve creds hs (c_script c) in
+      reqs_eqb qs (o_reqs c) && target_eqb tg (o_target c) &&
+      match tg with
+      | None => match o_final c with None => true | Some _ => false end
+      | Some (i, u, h, a) =>
+          let org := match nth_error hs i with Some hc => org_of i hc | None => None end in
+          let '(s, outs) := run true creds (mk_fetcher i org u h a) (c_ops c) in
+          outs_eqb outs (o_outs c) &&
+          match o_final c with
+          | Some f => final_eqb (url s, header s, single s) f
+          | None => false
+          end
       end
   end.
 
